@@ -69,4 +69,50 @@ def fragStep (st : FragSt) (ops : List String) (impl : String) : FragSt × Strin
 
 def fragStream : Stream := { σ := FragSt, init := {}, step := fragStep }
 
+/-! `fragt`: the same two layers under the fake clock, so that their clean-up loops (a ticker every minute; fragswarm
+    drops aggregators older than ten seconds, mbapp — whose ttl is never set — every collector that is not brand new)
+    run at known times. The models allow clean-up of any partial message at any time (`Frag.cleanup`, `RState.erase`);
+    this driver applies exactly the ones the clock makes due and compares the table sizes. -/
+structure FragTSt where
+  base : FragSt := {}
+  now : Nat := 0
+  t0 : Nat := 0                                   -- creation time of the receiving swarm: the ticker's phase
+  fborn : List ((Nat × Nat) × Nat) := []          -- creation time of each aggregator
+  mborn : List ((Nat × Nat × Nat) × Nat) := []    -- … of each collector
+
+def fragtStep (st : FragTSt) (ops : List String) (impl : String) : FragTSt × String :=
+  match ops with
+  | ["frag-tick", d] | ["mb-tick", d] =>
+    let stop := st.now + natArg d
+    -- ticker fire times in (now, stop]
+    let fires := (List.range (stop / 60000 + 2)).filterMap (fun k =>
+      let tau := st.t0 + 60000 * k
+      if k > 0 ∧ st.now < tau ∧ tau ≤ stop then some tau else none)
+    let isFrag := ops.head? == some "frag-tick"
+    let st := fires.foldl (fun (st : FragTSt) tau =>
+      if isFrag then
+        let dead := st.fborn.filter (fun kb => kb.2 + 10000 < tau)
+        { st with base := { st.base with rst := dead.foldl (fun r kb => Frag.cleanup r kb.1) st.base.rst },
+                  fborn := st.fborn.filter (fun kb => !(kb.2 + 10000 < tau)) }
+      else
+        let dead := st.mborn.filter (fun kb => kb.2 < tau)
+        { st with base := { st.base with mst := dead.foldl (fun r kb => r.erase kb.1) st.base.mst },
+                  mborn := st.mborn.filter (fun kb => !(kb.2 < tau)) }) st
+    let st := { st with now := stop }
+    (st, s!"now={stop} n={if isFrag then st.base.rst.length else st.base.mst.length}")
+  | _ =>
+    let (b, out) := fragStep st.base ops impl
+    let isNew := match ops with | ["frag-new", _, _] | ["mb-new", _, _] => true | _ => false
+    -- aggregators / collectors that exist now and did not before were created at this instant
+    let fborn := (st.fborn.filter (fun kb => b.rst.any (·.1 == kb.1))) ++
+      ((b.rst.filter (fun e => !(st.base.rst.any (·.1 == e.1)))).map (fun e => (e.1, st.now)))
+    let mborn := (st.mborn.filter (fun kb => b.mst.any (·.1 == kb.1))) ++
+      ((b.mst.filter (fun e => !(st.base.mst.any (·.1 == e.1)))).map (fun e => (e.1, st.now)))
+    -- (the harness lets mbapp's first clean-up pass finish: 3 ms)
+    let settle := match ops with | ["mb-new", _, _] => 3 | _ => 0
+    if isNew then ({ base := b, now := st.now + settle, t0 := st.now }, out)
+    else ({ st with base := b, fborn, mborn }, out)
+
+def fragtStream : Stream := { σ := FragTSt, init := {}, step := fragtStep }
+
 end P2PVerif.Driver
